@@ -497,6 +497,39 @@ pub fn run(ctx: &Ctx) -> i32 {
         check_detector_file(&seqs, as_contract, rng.chance(1, 2), rng, acc);
     });
 
+    // 3b'. shaped sequences: a wasteful front followed by the k largest sizes in ascending (or descending) order, 9..14 members in all;
+    // and every arrangement class of one multiset side by side in one file
+    let n_shaped = ctx.tier.pick(60u64, 3000u64);
+    run_workload(ctx, &mut acc, "det-shaped", n_shaped, |k, rng, acc| {
+        let as_contract = k % 2 == 0;
+        let mut seqs: Vec<Vec<u16>> = vec![];
+        for _ in 0..40 {
+            let fronts: [&[u16]; 6] = [&[128, 200, 128], &[8, 256, 8], &[128, 256, 128], &[8, 248, 16, 240], &[160, 256, 96], &[64, 256, 64, 256, 128]];
+            let mut s: Vec<u16> = rng.pick(&fronts).to_vec();
+            let klen = rng.range(6, 14 - s.len()); // (the exact optimum is computed for at most 14 members)
+            let mut tail: Vec<u16> = (0..klen).map(|_| *rng.pick(&[208u16, 216, 224, 232, 240, 248, 256, 256, 256])).collect();
+            tail.sort();
+            if rng.chance(1, 4) {
+                tail.reverse();
+            }
+            s.extend(tail);
+            seqs.push(s.clone());
+            // the same multiset again, arranged otherwise: sorted both ways and shuffled
+            if rng.chance(1, 2) {
+                let mut asc = s.clone();
+                asc.sort();
+                let mut desc = asc.clone();
+                desc.reverse();
+                let mut sh = s.clone();
+                rng.shuffle(&mut sh);
+                let mut group = vec![asc, desc, sh];
+                rng.shuffle(&mut group);
+                seqs.extend(group);
+            }
+        }
+        check_detector_file(&seqs, as_contract, rng.chance(1, 2), rng, acc);
+    });
+
     // 3c. very long member lists through the detectors (totals around and beyond 65 536 bits)
     let n_long_det = ctx.tier.pick(40u64, 600u64);
     run_workload(ctx, &mut acc, "det-long", n_long_det, |k, rng, acc| {
